@@ -140,6 +140,15 @@ func c19Config(slot int) ref.Config {
 // c19Prepare builds the thread's world and (outside the scheduler) its session.
 func c19Prepare(slot, workload int, y func(string), afterWorld func()) *c19Thread {
 	cfg := c19Config(slot)
+	if slot == 0 {
+		// an application that closed an earlier connection twice (Close is
+		// documented as safe to defer and often also called explicitly): nothing
+		// of that connection may be handed to the connections made afterwards
+		pre := newWorld(c19Config(15), nil, nil)
+		pre.Conn.GetSystemGUID(pre.Ctx)
+		pre.Conn.Close()
+		pre.Conn.Close()
+	}
 	th := &c19Thread{w: newWorld(cfg, nil, nil)}
 	afterWorld() // newWorld installs its own rand.Reader; put the per-thread one back
 	th.w.T.Yield = y
